@@ -399,6 +399,13 @@ def parse_args(*args, **kwargs):
 def main(*args, **kwargs):
     args = parse_args(*args, **kwargs)
 
+    # The variable-length integers in a bitstream are unbounded but Python
+    # 3.11+ refuses, by default, to convert integers of more than a few
+    # thousand digits into decimal strings. Lift this limit so that such values
+    # can be displayed rather than producing a crash.
+    if hasattr(sys, "set_int_max_str_digits"):
+        sys.set_int_max_str_digits(0)
+
     validator = BitstreamValidator(
         filename=args.bitstream,
         show_status=not args.no_status,
